@@ -201,10 +201,50 @@ Inductive RepF (ta : tree_arrays) : tree -> Prop :=
     Forall (RepF ta) ch ->
     RepF ta (Node u o ch).
 
+(* the tree whose sets the Hartigan loop computes: with the repaired handling (fx = true) a
+   missing sample is treated as a non-sample node *)
+Definition lab (fx : bool) (o : obs) : obs :=
+  match o with Missing => if fx then NotSample else Missing | _ => o end.
+Fixpoint relabel (fx : bool) (t : tree) : tree :=
+  match t with Node u o ch => Node u (lab fx o) (map (relabel fx) ch) end.
+
+Lemma relabel_node fx u o ch : relabel fx (Node u o ch) = Node u (lab fx o) (map (relabel fx) ch).
+Proof. reflexivity. Qed.
+Lemma tid_relabel fx t : tid (relabel fx t) = tid t.
+Proof. destruct t. reflexivity. Qed.
+Lemma map_tid_relabel fx ch : map tid (map (relabel fx) ch) = map tid ch.
+Proof. rewrite map_map. apply map_ext. intros. apply tid_relabel. Qed.
+Lemma relabel_false t : relabel false t = t.
+Proof.
+  induction t as [u o ch IH] using tree_ind'. rewrite relabel_node. f_equal; [destruct o; reflexivity|].
+  induction IH as [|c r Hc Hr IHr]; simpl; [reflexivity|]. rewrite Hc, IHr. reflexivity.
+Qed.
+Lemma relabel_true t : relabel true t = demote t.
+Proof.
+  induction t as [u o ch IH] using tree_ind'. rewrite relabel_node. cbn [demote].
+  assert (E : map (relabel true) ch = map demote ch).
+  { induction IH as [|c r Hc Hr IHr]; simpl; [reflexivity|]. rewrite Hc, IHr. reflexivity. }
+  rewrite E. destruct o; reflexivity.
+Qed.
+Lemma ids_relabel fx t : ids (relabel fx t) = ids t.
+Proof.
+  induction t as [u o ch IH] using tree_ind'. rewrite relabel_node, !ids_node. f_equal.
+  unfold forest_ids. induction IH as [|c r Hc Hr IHr]; simpl; [reflexivity|]. rewrite Hc, IHr. reflexivity.
+Qed.
+Lemma forest_ids_relabel fx cs : forest_ids (map (relabel fx) cs) = forest_ids cs.
+Proof. unfold forest_ids. induction cs as [|c r IH]; simpl; [reflexivity|]. rewrite ids_relabel, IH. reflexivity. Qed.
+Lemma tsize_relabel fx t : tsize (relabel fx t) = tsize t.
+Proof.
+  induction t as [u o ch IH] using tree_ind'. rewrite relabel_node. cbn [tsize]. f_equal.
+  induction IH as [|c r Hc Hr IHr]; simpl; [reflexivity|]. rewrite Hc, IHr. reflexivity.
+Qed.
+Lemma fsize_relabel fx cs : fsize (map (relabel fx) cs) = fsize cs.
+Proof. unfold fsize. induction cs as [|c r IH]; simpl; [reflexivity|]. rewrite tsize_relabel, IH. reflexivity. Qed.
+
 (* optimal_set[] after the initialisation loop 7252-7266 *)
-Inductive InitOk (os : list N) : tree -> Prop :=
+Inductive InitOk (fx : bool) (os : list N) : tree -> Prop :=
 | InitOk_node : forall u o ch,
-    get os u = Ok (init_set false o) -> Forall (InitOk os) ch -> InitOk os (Node u o ch).
+    get os u = Ok (init_set fx o) -> Forall (InitOk fx os) ch -> InitOk fx os (Node u o ch).
 
 Lemma RepF_RepS ta t : RepF ta t -> RepS ta t.
 Proof.
@@ -212,7 +252,14 @@ Proof.
   econstructor; try eassumption. rewrite Forall_forall in *. intros c Hc. apply IH; auto.
 Qed.
 
-Lemma InitOk_ext os os' t : (forall v, In v (ids t) -> get os' v = get os v) -> InitOk os t -> InitOk os' t.
+Lemma RepS_relabel fx ta t : RepS ta t -> RepS ta (relabel fx t).
+Proof.
+  induction t as [u o ch IH] using tree_ind'. intros H. inversion H; subst. rewrite relabel_node.
+  econstructor; [eassumption | rewrite map_tid_relabel; eassumption | rewrite map_length; assumption |].
+  apply Forall_map. rewrite Forall_forall in *. intros c Hc. apply IH; auto.
+Qed.
+
+Lemma InitOk_ext fx os os' t : (forall v, In v (ids t) -> get os' v = get os v) -> InitOk fx os t -> InitOk fx os' t.
 Proof.
   induction t as [u o ch IH] using tree_ind'. intros E H. inversion H; subst. constructor.
   - rewrite E; [assumption | left; reflexivity].
@@ -272,18 +319,23 @@ Proof.
   assert (X : exists a, get (ta_flags ta) u = Ok a) by eauto. apply get_ok_iff in X. lia.
 Qed.
 
+Lemma set_bit_nonzero g : set_bit 0 g <> 0%N.
+Proof. apply (testbit_nonzero _ g). rewrite testbit_single. apply N.eqb_refl. Qed.
+
 Section Hartigan.
 Variable K : nat.
 Variable ta : tree_arrays.
+Variable fx : bool.
 
 Definition HartP (t : tree) : Prop :=
-  RepF ta t -> NoDup (ids t) -> forall os, InitOk os t ->
-  exists os', hartigan_loop false ta K (post_ids t) os = Ok os' /\ OsOk K os' t /\
+  RepF ta t -> NoDup (ids t) -> forall os, InitOk fx os t ->
+  exists os', hartigan_loop fx ta K (post_ids t) os = Ok os' /\ OsOk K os' (relabel fx t) /\
               (forall v, ~ In v (ids t) -> get os' v = get os v).
 
 Lemma hartigan_forest ch : Forall HartP ch -> Forall (RepF ta) ch -> NoDup (forest_ids ch) ->
-  forall os, Forall (InitOk os) ch ->
-  exists os', hartigan_loop false ta K (flat_map post_ids ch) os = Ok os' /\ Forall (OsOk K os') ch /\
+  forall os, Forall (InitOk fx os) ch ->
+  exists os', hartigan_loop fx ta K (flat_map post_ids ch) os = Ok os' /\
+              Forall (OsOk K os') (map (relabel fx) ch) /\
               (forall v, ~ In v (forest_ids ch) -> get os' v = get os v).
 Proof.
   induction 1 as [|c r Hc Hr IH]; intros HR ND os HI.
@@ -291,14 +343,15 @@ Proof.
   - inversion HR as [|? ? HRc HRr]; subst. inversion HI as [|? ? HIc HIr]; subst.
     rewrite forest_ids_cons in ND. cbn [flat_map]. rewrite hartigan_loop_app.
     destruct (Hc HRc (NoDup_app_l _ _ ND) os HIc) as [os1 [E1 [O1 U1]]]. rewrite E1. cbn [bind].
-    assert (HIr1 : Forall (InitOk os1) r).
-    { rewrite Forall_forall in *. intros x Hx. apply (InitOk_ext os); [|auto].
+    assert (HIr1 : Forall (InitOk fx os1) r).
+    { rewrite Forall_forall in *. intros x Hx. apply (InitOk_ext fx os); [|auto].
       intros v Hv. apply U1. intros Hin. eapply NoDup_app_disj; [exact ND | exact Hin |].
       unfold forest_ids. apply in_flat_map. eauto. }
     destruct (IH HRr (NoDup_app_r _ _ ND) os1 HIr1) as [os2 [E2 [O2 U2]]].
     exists os2. split; [exact E2|]. split.
-    + constructor; [|exact O2]. apply (OsOk_ext K os1); [|exact O1].
-      intros v Hv. apply U2. intros Hin. eapply NoDup_app_disj; [exact ND | exact Hv | exact Hin].
+    + cbn [map]. constructor; [|exact O2]. apply (OsOk_ext K os1); [|exact O1].
+      intros v Hv. rewrite ids_relabel in Hv. apply U2. intros Hin.
+      eapply NoDup_app_disj; [exact ND | exact Hv | exact Hin].
     + intros v Hv. rewrite forest_ids_cons in Hv. rewrite U2, U1; [reflexivity | |];
         intros X; apply Hv; apply in_or_app; [left | right]; exact X.
 Qed.
@@ -312,28 +365,41 @@ Proof.
   destruct (hartigan_forest ch IH HRc NDc os HIc) as [os2 [E2 [O2 U2]]].
   cbn [post_ids]. rewrite hartigan_loop_app, E2. cbn [bind]. rewrite hartigan_loop_cons.
   cbn [hartigan_loop].
-  assert (Hu2 : get os2 u = Ok (init_set false o)) by (rewrite U2; assumption).
+  assert (Hu2 : get os2 u = Ok (init_set fx o)) by (rewrite U2; assumption).
   assert (NEu : (u =? zlen (ta_flags ta))%Z = false).
   { apply Z.eqb_neq. apply (RepF_id_lt ta (Node u o ch) HR). }
   unfold hartigan_step. rewrite Hlc. cbn [bind].
   rewrite (chain_sibs _ _ _ _ Hsibs) by (rewrite map_length; lia). cbn [bind].
-  rewrite (child_sets K os2 ch O2). cbn [bind]. rewrite NEu, Hf. cbn [bind]. rewrite Hodd, Hu2. cbn [bind andb].
-  destruct o as [| |g]; cbn [negb orb init_set].
-  - (* non-sample: the Hartigan step *)
-    destruct (set_ok os2 u (N.lor 0 (hartigan_set K (map (opt_set K) ch))) _ Hu2) as [os3 E3].
-    rewrite E3. cbn [bind]. exists os3. split; [reflexivity|]. split.
-    + constructor.
-      * rewrite (get_set_same _ _ _ _ E3). rewrite N.lor_0_l. reflexivity.
-      * rewrite Forall_forall in *. intros c Hc. apply (OsOk_ext K os2); [|auto].
+  rewrite <- (map_tid_relabel fx ch). rewrite (child_sets K os2 _ O2). cbn [bind].
+  rewrite NEu, Hf. cbn [bind]. rewrite Hodd, Hu2. cbn [bind]. rewrite relabel_node.
+  (* the branch with the Hartigan step *)
+  assert (STEP : forall cur, get os2 u = Ok cur -> cur = 0%N ->
+            exists os', set os2 u (N.lor cur (hartigan_set K (map (opt_set K) (map (relabel fx) ch)))) = Ok os' /\
+              OsOk K os' (Node u NotSample (map (relabel fx) ch)) /\
+              (forall v, ~ In v (u :: forest_ids ch) -> get os' v = get os v)).
+  { intros cur Hcur ->. destruct (set_ok os2 u (N.lor 0 (hartigan_set K (map (opt_set K) (map (relabel fx) ch)))) _ Hcur) as [os3 E3].
+    exists os3. split; [exact E3|]. split.
+    - constructor.
+      + rewrite (get_set_same _ _ _ _ E3). rewrite N.lor_0_l. reflexivity.
+      + rewrite Forall_forall in *. intros c Hc. apply (OsOk_ext K os2); [|auto].
         intros v Hv. apply (get_set_other _ _ _ _ _ E3). intros X; subst v. apply Hu.
+        apply in_map_iff in Hc. destruct Hc as [c0 [Ec0 Hc0]]. subst c. rewrite ids_relabel in Hv.
         unfold forest_ids. apply in_flat_map. eauto.
-    + intros v Hv. rewrite ids_node in Hv.
-      rewrite (get_set_other _ _ _ _ _ E3) by (intros X; apply Hv; left; exact X).
-      apply U2. intros X. apply Hv. right. exact X.
-  - exists os2. split; [reflexivity|]. split; [constructor; assumption|].
-    intros v Hv. apply U2. intros X. apply Hv. rewrite ids_node. right. exact X.
-  - exists os2. split; [reflexivity|]. split; [constructor; assumption|].
-    intros v Hv. apply U2. intros X. apply Hv. rewrite ids_node. right. exact X.
+    - intros v Hv. rewrite (get_set_other _ _ _ _ _ E3) by (intros X; apply Hv; left; exact X).
+      apply U2. intros X. apply Hv. right. exact X. }
+  assert (SKIP : get os2 u = Ok (opt_set K (Node u (lab fx o) (map (relabel fx) ch))) ->
+            exists os', Ok os2 = Ok os' /\ OsOk K os' (Node u (lab fx o) (map (relabel fx) ch)) /\
+              (forall v, ~ In v (u :: forest_ids ch) -> get os' v = get os v)).
+  { intros Hg. exists os2. split; [reflexivity|]. split; [constructor; assumption|].
+    intros v Hv. apply U2. intros X. apply Hv. right. exact X. }
+  rewrite ids_node.
+  destruct o as [| |g]; cbn [negb orb init_set lab] in *.
+  - destruct (STEP _ Hu2 eq_refl) as [os' [E' R]]. rewrite E'. exists os'. split; [reflexivity | exact R].
+  - destruct fx; cbn [andb].
+    + rewrite N.eqb_refl. destruct (STEP _ Hu2 eq_refl) as [os' [E' R]]. rewrite E'. exists os'. split; [reflexivity | exact R].
+    + apply SKIP. exact Hu2.
+  - assert (NZ : N.eqb (set_bit 0 g) 0 = false) by (apply N.eqb_neq; apply set_bit_nonzero).
+    rewrite NZ, andb_false_r. apply SKIP. exact Hu2.
 Qed.
 
 (* the whole Hartigan phase on the postorder of the forest followed by the virtual root *)
@@ -342,10 +408,10 @@ Lemma c_hartigan_eq_rose_lemma roots os lc :
   sibs (ta_right_sib ta) lc (map tid roots) ->
   (length roots <= length (ta_right_sib ta))%nat ->
   Forall (RepF ta) roots -> NoDup (forest_ids roots) ->
-  Forall (InitOk os) roots -> get os (zlen (ta_flags ta)) = Ok 0%N ->
-  exists os', hartigan_loop false ta K (flat_map post_ids roots ++ [zlen (ta_flags ta)]) os = Ok os' /\
-              Forall (OsOk K os') roots /\
-              get os' (zlen (ta_flags ta)) = Ok (hartigan_set K (map (opt_set K) roots)).
+  Forall (InitOk fx os) roots -> get os (zlen (ta_flags ta)) = Ok 0%N ->
+  exists os', hartigan_loop fx ta K (flat_map post_ids roots ++ [zlen (ta_flags ta)]) os = Ok os' /\
+              Forall (OsOk K os') (map (relabel fx) roots) /\
+              get os' (zlen (ta_flags ta)) = Ok (hartigan_set K (map (opt_set K) (map (relabel fx) roots))).
 Proof.
   intros Hlc Hsibs Hwide HR ND HI HN.
   assert (P : Forall HartP roots) by (apply Forall_forall; intros; apply hartigan_tree).
@@ -362,11 +428,13 @@ Proof.
   assert (HN2 : get os2 (zlen (ta_flags ta)) = Ok 0%N) by (rewrite U2; assumption).
   unfold hartigan_step. rewrite Hlc. cbn [bind].
   rewrite (chain_sibs _ _ _ _ Hsibs) by (rewrite map_length; lia). cbn [bind].
-  rewrite (child_sets K os2 roots O2). cbn [bind]. rewrite Z.eqb_refl. cbn [bind]. rewrite HN2. cbn [bind negb orb].
-  destruct (set_ok os2 (zlen (ta_flags ta)) (N.lor 0 (hartigan_set K (map (opt_set K) roots))) _ HN2) as [os3 E3].
+  rewrite <- (map_tid_relabel fx roots). rewrite (child_sets K os2 _ O2). cbn [bind].
+  rewrite Z.eqb_refl. cbn [bind]. rewrite HN2. cbn [bind negb orb].
+  destruct (set_ok os2 (zlen (ta_flags ta)) (N.lor 0 (hartigan_set K (map (opt_set K) (map (relabel fx) roots)))) _ HN2) as [os3 E3].
   rewrite E3. cbn [bind]. exists os3. split; [reflexivity|]. split.
   - rewrite Forall_forall in *. intros c Hc. apply (OsOk_ext K os2); [|auto].
     intros v Hv. apply (get_set_other _ _ _ _ _ E3). intros X; subst v. apply NotIn.
+    apply in_map_iff in Hc. destruct Hc as [c0 [Ec0 Hc0]]. subst c. rewrite ids_relabel in Hv.
     unfold forest_ids. apply in_flat_map. eauto.
   - rewrite (get_set_same _ _ _ _ E3). rewrite N.lor_0_l. reflexivity.
 Qed.
@@ -463,7 +531,7 @@ Qed.
 (* ------------------------------------------------------------------------- *)
 (* L2 = L0, assembled                                                          *)
 (* ------------------------------------------------------------------------- *)
-Lemma init_okb_InitOk os t : init_okb false os t = true -> InitOk os t.
+Lemma init_okb_InitOk fx os t : init_okb fx os t = true -> InitOk fx os t.
 Proof.
   induction t as [u o ch IH] using tree_ind'. cbn [init_okb]. intros H.
   apply andb_true_iff in H as [H1 H2]. constructor.
@@ -486,33 +554,36 @@ Qed.
    the arrays represent — given the two facts that are only evaluated, not proved:
    the initialisation loop gives every node its initial set ([init_okb], and 0 at the
    virtual root) and tsk_tree_postorder_from yields the left-to-right postorder. *)
-Lemma c_map_mutations_eq_rose_partial_lemma ta g anc os0 na0 nm roots :
-  init_sets false (ta_samples ta) g (repeat 0%N (S (length (ta_flags ta)))) 0 0 = Ok (os0, na0, nm) ->
+Lemma c_map_mutations_core fx ta g anc os0 na0 nm roots :
+  init_sets fx (ta_samples ta) g (repeat 0%N (S (length (ta_flags ta)))) 0 0 = Ok (os0, na0, nm) ->
   nm <> 0%Z ->
   match anc with Some a => (0 <= a < c20_hartigan_max_alleles)%Z | None => True end ->
   rose_of_arrays ta g = Ok roots ->
-  forallb (init_okb false os0) roots = true ->
+  Forall (InitOk fx os0) roots ->
   get os0 (zlen (ta_flags ta)) = Ok 0%N ->
   postorder_from_virtual_root ta = Ok (flat_map post_ids roots ++ [zlen (ta_flags ta)]) ->
-  nodupb (forest_ids roots) = true ->
+  NoDup (forest_ids roots) ->
   (fsize roots < length (ta_left_child ta))%nat ->
-  forallb (sets_nonzero (Z.to_nat (final_num_alleles na0 anc))) roots = true ->
-  c_map_mutations_gen false ta g anc =
-  match mm_rose (Z.to_nat (final_num_alleles na0 anc)) roots (option_map Z.to_N anc) with
+  forallb (sets_nonzero (Z.to_nat (final_num_alleles na0 anc))) (map (relabel fx) roots) = true ->
+  c_map_mutations_gen fx ta g anc =
+  match mm_rose (Z.to_nat (final_num_alleles na0 anc)) (map (relabel fx) roots) (option_map Z.to_N anc) with
   | Some (a, tr) => Ok (Z.of_N a, tr)
   | None => Err ERR_NONTERMINATION
   end.
 Proof.
-  intros Hinit Hnm Hanc Hrose Hiok HN0 Hpost ND Hsize NZ.
+  intros Hinit Hnm Hanc Hrose HI HN0 Hpost ND Hsize NZ.
   set (K := Z.to_nat (final_num_alleles na0 anc)) in *.
+  set (roots' := map (relabel fx) roots) in *.
   destruct (rose_of_arrays_rep ta g roots Hrose) as [lc [Hlc [Hsibs [Hwide HR]]]].
-  apply nodupb_NoDup in ND.
-  assert (HI : Forall (InitOk os0) roots).
-  { rewrite forallb_forall in Hiok. apply Forall_forall. intros c Hc. apply init_okb_InitOk. auto. }
-  destruct (c_hartigan_eq_rose_lemma K ta roots os0 lc Hlc Hsibs Hwide HR ND HI HN0) as [os1 [E1 [O1 HSv]]].
+  destruct (c_hartigan_eq_rose_lemma K ta fx roots os0 lc Hlc Hsibs Hwide HR ND HI HN0) as [os1 [E1 [O1 HSv]]].
+  fold roots' in O1, HSv.
   pose proof (RepF_not_root ta roots HR) as NotIn.
-  assert (HRs : Forall (RepS ta) roots).
-  { rewrite Forall_forall in *. intros c Hc. apply RepF_RepS. auto. }
+  assert (HRs : Forall (RepS ta) roots').
+  { unfold roots'. apply Forall_map. rewrite Forall_forall in *. intros c Hc. apply RepS_relabel. apply RepF_RepS. auto. }
+  assert (Hsibs' : sibs (ta_right_sib ta) lc (map tid roots')) by (unfold roots'; rewrite map_tid_relabel; exact Hsibs).
+  assert (Hwide' : (length roots' <= length (ta_right_sib ta))%nat) by (unfold roots'; rewrite map_length; exact Hwide).
+  assert (Hsize' : (fsize roots' < length (ta_left_child ta))%nat) by (unfold roots'; rewrite fsize_relabel; exact Hsize).
+  assert (NotIn' : ~ In (zlen (ta_flags ta)) (forest_ids roots')) by (unfold roots'; rewrite forest_ids_relabel; exact NotIn).
   unfold c_map_mutations_gen. rewrite Hinit. cbn [bind].
   assert (Enm : (nm =? 0)%Z = false) by (apply Z.eqb_neq; exact Hnm). rewrite Enm.
   unfold mm_rose. rewrite NZ. cbn [negb].
@@ -526,12 +597,12 @@ Proof.
     rewrite E1. cbn [bind].
     assert (X : exists x, get os1 (zlen (ta_flags ta)) = Ok x) by eauto.
     destruct X as [x Hx]. destruct (set_ok os1 _ UINT64_MAX _ Hx) as [os2 E2]. rewrite E2. cbn [bind].
-    assert (O2 : Forall (OsOk K os2) roots).
+    assert (O2 : Forall (OsOk K os2) roots').
     { rewrite Forall_forall in *. intros c Hc. apply (OsOk_ext K os1); [|auto].
-      intros v Hv. apply (get_set_other _ _ _ _ _ E2). intros Y; subst v. apply NotIn.
+      intros v Hv. apply (get_set_other _ _ _ _ _ E2). intros Y; subst v. apply NotIn'.
       unfold forest_ids. apply in_flat_map. eauto. }
-    rewrite (c_preorder_eq_rose_lemma K ta os2 roots (Z.to_N a) UINT64_MAX lc Hlc Hsibs Hwide HRs O2
-               (get_set_same _ _ _ _ E2)); [| | exact NZ | exact Hsize].
+    rewrite (c_preorder_eq_rose_lemma K ta os2 roots' (Z.to_N a) UINT64_MAX lc Hlc Hsibs' Hwide' HRs O2
+               (get_set_same _ _ _ _ E2)); [| | exact NZ | exact Hsize'].
     + cbn [bind option_map]. rewrite Z2N.id by lia. reflexivity.
     + unfold bit_is_set. rewrite testbit_uint64_max. apply N.ltb_lt.
       unfold c20_hartigan_max_alleles in Ha1. lia.
@@ -539,10 +610,377 @@ Proof.
     cbn [bind]. rewrite Hpost. cbn [bind].
     change (Z.to_nat (na0 + 1)%Z) with K.
     rewrite E1. cbn [bind]. rewrite HSv. cbn [bind option_map].
-    destruct (get_smallest_set_bit (hartigan_set K (map (opt_set K) roots))) as [a|] eqn:Ea; [|reflexivity].
+    destruct (get_smallest_set_bit (hartigan_set K (map (opt_set K) roots'))) as [a|] eqn:Ea; [|reflexivity].
     cbn [bind]. rewrite N2Z.id.
-    rewrite (c_preorder_eq_rose_lemma K ta os1 roots a _ lc Hlc Hsibs Hwide HRs O1 HSv); [| | exact NZ | exact Hsize].
+    rewrite (c_preorder_eq_rose_lemma K ta os1 roots' a _ lc Hlc Hsibs' Hwide' HRs O1 HSv); [| | exact NZ | exact Hsize'].
     + reflexivity.
-    + destruct (hartigan_set K (map (opt_set K) roots)) as [|p]; [discriminate|].
+    + destruct (hartigan_set K (map (opt_set K) roots')) as [|p]; [discriminate|].
       inversion Ea; subst. apply ctz_testbit.
+Qed.
+
+(* ------------------------------------------------------------------------- *)
+(* tsk_tree_postorder_from (6842-6902): explicit stack + postorder_parent      *)
+(* ------------------------------------------------------------------------- *)
+(* the other three arrays of the quintuply linked tree agree with the forest *)
+Inductive RepP (ta : tree_arrays) : tree -> Prop :=
+| RepP_node : forall u o ch rc p,
+    get (ta_right_child ta) u = Ok rc ->
+    sibs (ta_left_sib ta) rc (rev (map tid ch)) ->
+    get (ta_parent ta) u = Ok p ->
+    (forall c, In c ch -> get (ta_parent ta) (tid c) = Ok u) ->
+    Forall (RepP ta) ch ->
+    RepP ta (Node u o ch).
+
+(* loop iterations spent on a subtree: one to expand an internal node, one to emit *)
+Fixpoint iters (t : tree) : nat :=
+  match t with
+  | Node _ _ ch => ((match ch with [] => 1 | _ => 2 end) + fold_right (fun c n => iters c + n) 0 ch)%nat
+  end.
+Definition fiters (ts : list tree) : nat := fold_right (fun c n => (iters c + n)%nat) O ts.
+
+Lemma iters_le t : (iters t <= 2 * tsize t)%nat.
+Proof.
+  induction t as [u o ch IH] using tree_ind'. cbn [iters tsize].
+  assert (G : (fold_right (fun c n => iters c + n) 0 ch <= 2 * fold_right (fun c n => tsize c + n) 0 ch)%nat).
+  { induction IH as [|c r Hc Hr IHr]; simpl; [lia|]. simpl in IHr. lia. }
+  destruct ch; simpl in *; lia.
+Qed.
+
+Lemma fiters_le ts : (fiters ts <= 2 * fsize ts)%nat.
+Proof.
+  unfold fiters, fsize. induction ts as [|c r IH]; simpl; [lia|]. pose proof (iters_le c). simpl in IH. lia.
+Qed.
+
+Lemma post_ids_node u o ch : post_ids (Node u o ch) = flat_map post_ids ch ++ [u].
+Proof. reflexivity. Qed.
+
+Section Postorder.
+Variable ta : tree_arrays.
+
+Definition PostP (t : tree) : Prop :=
+  RepP ta t -> NoDup (ids t) -> forall rest pp acc f, ~ In pp (ids t) ->
+  exists p, get (ta_parent ta) (tid t) = Ok p /\
+    postorder_loop (iters t + f) ta (tid t :: rest) pp acc =
+    postorder_loop f ta rest p (rev (post_ids t) ++ acc).
+
+Lemma post_forest ch u : Forall PostP ch -> Forall (RepP ta) ch -> NoDup (forest_ids ch) ->
+  (forall c, In c ch -> get (ta_parent ta) (tid c) = Ok u) -> ~ In u (forest_ids ch) ->
+  forall rest pp acc f, ~ In pp (forest_ids ch) ->
+  postorder_loop (fiters ch + f) ta (map tid ch ++ rest) pp acc =
+  postorder_loop f ta rest (match ch with [] => pp | _ => u end) (rev (flat_map post_ids ch) ++ acc).
+Proof.
+  induction 1 as [|c r Hc Hr IH]; intros HR ND Hpar Hu rest pp acc f Hpp; [reflexivity|].
+  inversion HR as [|? ? HRc HRr]; subst. rewrite forest_ids_cons in *.
+  cbn [map app fiters fold_right]. fold (fiters r). rewrite <- Nat.add_assoc.
+  destruct (Hc HRc (NoDup_app_l _ _ ND) (map tid r ++ rest) pp acc (fiters r + f)%nat) as [p [Hp E]].
+  { intros X. apply Hpp. apply in_or_app. left. exact X. }
+  rewrite E. rewrite (Hpar c (or_introl eq_refl)) in Hp. inversion Hp; subst p.
+  rewrite IH; try assumption.
+  - cbn [flat_map]. rewrite rev_app_distr. rewrite <- app_assoc. destruct r; reflexivity.
+  - eapply NoDup_app_r; eassumption.
+  - intros x Hx. apply Hpar. right. exact Hx.
+  - intros X. apply Hu. apply in_or_app. right. exact X.
+  - intros X. apply Hu. apply in_or_app. right. exact X.
+Qed.
+
+Lemma post_tree : forall t, PostP t.
+Proof.
+  induction t as [u o ch IH] using tree_ind'. intros HR ND rest pp acc f Hpp.
+  inversion HR as [? ? ? rc p Hrc Hsibs Hp Hpar HRc]; subst.
+  rewrite ids_node in *. inversion ND as [|? ? Hu NDc]; subst.
+  exists p. split; [exact Hp|]. cbn [tid]. rewrite post_ids_node, rev_app_distr. cbn [rev app].
+  destruct ch as [|c0 r0].
+  - (* leaf: right_child = NULL, emitted at once *)
+    cbn [map rev] in Hsibs. inversion Hsibs; subst.
+    cbn [iters fold_right Nat.add postorder_loop]. rewrite Hrc. cbn [bind]. unfold tsk_null. cbn [Z.eqb negb andb].
+    rewrite Hp. cbn [bind flat_map rev app]. reflexivity.
+  - (* internal node: expand, children, then u == postorder_parent *)
+    set (ch := c0 :: r0) in *.
+    assert (Hne : rc <> (-1)%Z).
+    { intros X. subst rc. inversion Hsibs as [E|]; [|congruence].
+      match goal with H : [] = _ |- _ => apply (f_equal (@length Z)) in H; simpl in H;
+        rewrite ?app_length, ?rev_length, ?map_length in H; simpl in H; lia end. }
+    assert (Hupp : u <> pp) by (intros X; apply Hpp; left; exact X).
+    change (iters (Node u o ch)) with (S (S (fiters ch))).
+    replace (S (S (fiters ch)) + f)%nat with (S (fiters ch + S f))%nat by lia.
+    remember (fiters ch + S f)%nat as F1 eqn:EF1.
+    cbn [postorder_loop]. rewrite Hrc. cbn [bind]. unfold tsk_null.
+    assert (E1 : (rc =? -1)%Z = false) by (apply Z.eqb_neq; exact Hne).
+    assert (E2 : (u =? pp)%Z = false) by (apply Z.eqb_neq; exact Hupp).
+    rewrite E1, E2. cbn [negb andb].
+    rewrite (chain_sibs _ _ _ _ Hsibs).
+    2:{ pose proof (sibs_width _ _ _ Hsibs). lia. }
+    cbn [bind]. rewrite rev_involutive. subst F1.
+    rewrite (post_forest ch u IH HRc NDc Hpar Hu (u :: rest) pp acc (S f)).
+    2:{ intros X. apply Hpp. right. exact X. }
+    unfold ch at 1. cbn [postorder_loop]. rewrite Hrc. cbn [bind]. unfold tsk_null. rewrite E1, Z.eqb_refl.
+    cbn [negb andb]. rewrite Hp. cbn [bind]. reflexivity.
+Qed.
+
+(* the whole traversal from the virtual root *)
+Lemma postorder_from_virtual_root_spec roots rc :
+  get (ta_right_child ta) (zlen (ta_flags ta)) = Ok rc ->
+  sibs (ta_left_sib ta) rc (rev (map tid roots)) ->
+  Forall (RepP ta) roots -> NoDup (forest_ids roots) ->
+  (forall r, In r roots -> get (ta_parent ta) (tid r) = Ok (-1)%Z) ->
+  (forall x, In x (forest_ids roots) -> (0 <= x)%Z) ->
+  (fsize roots < length (ta_left_child ta))%nat ->
+  postorder_from_virtual_root ta = Ok (flat_map post_ids roots ++ [zlen (ta_flags ta)]).
+Proof.
+  intros Hrc Hsibs HR ND Hpar Hpos Hsize. unfold postorder_from_virtual_root.
+  rewrite Hrc. cbn [bind]. rewrite (chain_sibs _ _ _ _ Hsibs).
+  2:{ pose proof (sibs_width _ _ _ Hsibs). lia. }
+  cbn [bind]. rewrite rev_involutive.
+  assert (Neg : ~ In (-1)%Z (forest_ids roots)) by (intros X; specialize (Hpos _ X); lia).
+  pose proof (fiters_le roots) as FL.
+  set (F := S (2 * S (length (ta_left_child ta)))).
+  assert (EF : F = (fiters roots + S (F - fiters roots - 1))%nat) by (unfold F; lia).
+  rewrite EF. unfold tsk_null.
+  pose proof (post_forest roots (-1)%Z (proj2 (Forall_forall _ _) (fun t _ => post_tree t)) HR ND Hpar Neg
+                [] (-1)%Z [] (S (F - fiters roots - 1)) Neg) as E.
+  rewrite app_nil_r in E. rewrite E. cbn [postorder_loop]. rewrite app_nil_r, rev_involutive. reflexivity.
+Qed.
+
+End Postorder.
+
+(* ------------------------------------------------------------------------- *)
+(* the initialisation loop 7252-7266                                           *)
+(* ------------------------------------------------------------------------- *)
+Lemma index_of_shift x l : forall i, index_of x l (S i) = option_map S (index_of x l i).
+Proof.
+  induction l as [|y r IH]; intros i; [reflexivity|]. cbn [index_of].
+  destruct (x =? y)%Z; [reflexivity | apply IH].
+Qed.
+
+Lemma index_of_notin x l i : ~ In x l -> index_of x l i = None.
+Proof.
+  revert i. induction l as [|y r IH]; intros i H; [reflexivity|]. cbn [index_of].
+  destruct (Z.eqb_spec x y) as [E|NE]; [exfalso; apply H; left; auto|]. apply IH. intros X. apply H. right. exact X.
+Qed.
+
+Lemma index_of_in x l : In x l -> exists j, index_of x l O = Some j.
+Proof.
+  induction l as [|y r IH]; intros H; [contradiction|]. cbn [index_of].
+  destruct (Z.eqb_spec x y) as [E|NE]; [eauto|]. destruct H as [H|H]; [congruence|].
+  destruct (IH H) as [j Ej]. rewrite index_of_shift, Ej. simpl. eauto.
+Qed.
+
+Lemma init_sets_get fx : forall samples g os na nm os' na' nm',
+  init_sets fx samples g os na nm = Ok (os', na', nm') -> NoDup samples ->
+  forall u,
+    get os' u =
+    match index_of u samples O with
+    | None => get os u
+    | Some j =>
+        match nth_error g j with
+        | Some gj => if (gj =? c20_tsk_missing_data)%Z then (if fx then get os u else Ok UINT64_MAX)
+                     else do cur <- get os u; Ok (set_bit cur (Z.to_N gj))
+        | None => OOB
+        end
+    end.
+Proof.
+  induction samples as [|s rest IH]; intros g os na nm os' na' nm' H ND u.
+  - destruct g; simpl in H; inversion H; subst; reflexivity.
+  - destruct g as [|gj g']; [simpl in H; discriminate|]. cbn [init_sets] in H.
+    inversion ND as [|? ? Hs NDr]; subst.
+    destruct ((gj >=? c20_hartigan_max_alleles)%Z || (gj <? c20_tsk_missing_data)%Z); [discriminate|].
+    cbn [index_of]. destruct (Z.eqb_spec u s) as [E|NE].
+    + subst u. cbn [nth_error].
+      destruct (gj =? c20_tsk_missing_data)%Z.
+      * destruct fx.
+        -- destruct (get os s) as [cur| | |] eqn:Ec; cbn [bind] in H; try discriminate.
+           rewrite (IH _ _ _ _ _ _ _ H NDr s). rewrite (index_of_notin s rest O Hs). exact Ec.
+        -- destruct (set os s UINT64_MAX) as [os1| | |] eqn:E1; cbn [bind] in H; try discriminate.
+           rewrite (IH _ _ _ _ _ _ _ H NDr s). rewrite (index_of_notin s rest O Hs).
+           apply (get_set_same _ _ _ _ E1).
+      * destruct (get os s) as [cur| | |] eqn:Ec; cbn [bind] in H; try discriminate.
+        destruct (set os s (set_bit cur (Z.to_N gj))) as [os1| | |] eqn:E1; cbn [bind] in H; try discriminate.
+        rewrite (IH _ _ _ _ _ _ _ H NDr s). rewrite (index_of_notin s rest O Hs). cbn [bind].
+        apply (get_set_same _ _ _ _ E1).
+    + rewrite index_of_shift.
+      destruct (gj =? c20_tsk_missing_data)%Z.
+      * destruct fx.
+        -- destruct (get os s) as [cur| | |] eqn:Ec; cbn [bind] in H; try discriminate.
+           rewrite (IH _ _ _ _ _ _ _ H NDr u). destruct (index_of u rest 0); reflexivity.
+        -- destruct (set os s UINT64_MAX) as [os1| | |] eqn:E1; cbn [bind] in H; try discriminate.
+           rewrite (IH _ _ _ _ _ _ _ H NDr u). rewrite (get_set_other _ _ _ _ _ E1) by congruence.
+           destruct (index_of u rest 0); reflexivity.
+      * destruct (get os s) as [cur| | |] eqn:Ec; cbn [bind] in H; try discriminate.
+        destruct (set os s (set_bit cur (Z.to_N gj))) as [os1| | |] eqn:E1; cbn [bind] in H; try discriminate.
+        rewrite (IH _ _ _ _ _ _ _ H NDr u). rewrite (get_set_other _ _ _ _ _ E1) by congruence.
+        destruct (index_of u rest 0); reflexivity.
+Qed.
+
+Lemma get_repeat_zero n u : (0 <= u < Z.of_nat n)%Z -> get (repeat 0%N n) u = Ok 0%N.
+Proof.
+  intros H. apply get_nth. split; [lia|].
+  assert (L : (Z.to_nat u < n)%nat) by lia.
+  rewrite (nth_error_nth' _ 0%N) by (rewrite repeat_length; exact L).
+  f_equal. apply nth_repeat.
+Qed.
+
+(* what the sample list must satisfy (a tree-sequence invariant): no duplicates, and every
+   listed node carries the sample flag *)
+Definition samples_ok (ta : tree_arrays) : Prop :=
+  NoDup (ta_samples ta) /\
+  forall s, In s (ta_samples ta) -> exists f, get (ta_flags ta) s = Ok f /\ Z.odd (f / c20_tsk_node_is_sample) = true.
+
+Lemma init_value fx ta g os0 na0 nm u o :
+  init_sets fx (ta_samples ta) g (repeat 0%N (S (length (ta_flags ta)))) 0 0 = Ok (os0, na0, nm) ->
+  samples_ok ta -> obs_of ta g u = Ok o -> get os0 u = Ok (init_set fx o).
+Proof.
+  intros Hinit [ND SF] Ho. rewrite (init_sets_get fx _ _ _ _ _ _ _ _ Hinit ND u).
+  unfold obs_of in Ho. destruct (get (ta_flags ta) u) as [f| | |] eqn:Ef; cbn [bind] in Ho; try discriminate.
+  assert (Hu : (0 <= u < Z.of_nat (S (length (ta_flags ta))))%Z).
+  { assert (X : exists a, get (ta_flags ta) u = Ok a) by eauto. apply get_ok_iff in X. unfold zlen in X. lia. }
+  destruct (Z.odd (f / c20_tsk_node_is_sample)) eqn:Eo.
+  - destruct (index_of u (ta_samples ta) 0) as [j|]; [|discriminate].
+    destruct (nth_error g j) as [gj|]; [|discriminate]. inversion Ho; subst.
+    destruct (gj =? c20_tsk_missing_data)%Z.
+    + cbn [init_set]. destruct fx; [apply get_repeat_zero; exact Hu | reflexivity].
+    + rewrite (get_repeat_zero _ _ Hu). cbn [bind init_set]. reflexivity.
+  - inversion Ho; subst. cbn [init_set].
+    rewrite index_of_notin; [apply get_repeat_zero; exact Hu|].
+    intros X. destruct (SF u X) as [f' [Ef' Eo']]. congruence.
+Qed.
+
+Lemma init_value_root fx ta g os0 na0 nm :
+  init_sets fx (ta_samples ta) g (repeat 0%N (S (length (ta_flags ta)))) 0 0 = Ok (os0, na0, nm) ->
+  samples_ok ta -> get os0 (zlen (ta_flags ta)) = Ok 0%N.
+Proof.
+  intros Hinit [ND SF]. rewrite (init_sets_get fx _ _ _ _ _ _ _ _ Hinit ND).
+  rewrite index_of_notin.
+  - apply get_repeat_zero. unfold zlen. lia.
+  - intros X. destruct (SF _ X) as [f [Ef _]].
+    assert (Y : exists a, get (ta_flags ta) (zlen (ta_flags ta)) = Ok a) by eauto. apply get_ok_iff in Y. lia.
+Qed.
+
+(* observations of the forest returned by rose_of_arrays *)
+Inductive RepO (ta : tree_arrays) (g : list Z) : tree -> Prop :=
+| RepO_node : forall u o ch, obs_of ta g u = Ok o -> Forall (RepO ta g) ch -> RepO ta g (Node u o ch).
+
+Lemma rose_chain_repO ta g : forall fuel v ts, rose_chain fuel ta g v = Ok ts -> Forall (RepO ta g) ts.
+Proof.
+  induction fuel as [|f IH]; intros v ts H; [discriminate|]. cbn [rose_chain] in H.
+  destruct (v =? tsk_null)%Z.
+  - inversion H; subst. constructor.
+  - destruct (obs_of ta g v) as [o| | |] eqn:Eo; cbn [bind] in H; try discriminate.
+    destruct (get (ta_left_child ta) v) as [lc| | |] eqn:Elc; cbn [bind] in H; try discriminate.
+    destruct (rose_chain f ta g lc) as [ch| | |] eqn:Ech; cbn [bind] in H; try discriminate.
+    destruct (get (ta_right_sib ta) v) as [rs| | |] eqn:Ers; cbn [bind] in H; try discriminate.
+    destruct (rose_chain f ta g rs) as [rest| | |] eqn:Erest; cbn [bind] in H; try discriminate.
+    inversion H; subst. constructor; [|eapply IH; eassumption]. constructor; [exact Eo | eapply IH; eassumption].
+Qed.
+
+Lemma RepO_InitOk fx ta g os0 na0 nm t :
+  init_sets fx (ta_samples ta) g (repeat 0%N (S (length (ta_flags ta)))) 0 0 = Ok (os0, na0, nm) ->
+  samples_ok ta -> RepO ta g t -> InitOk fx os0 t.
+Proof.
+  intros Hinit SO. induction t as [u o ch IH] using tree_ind'. intros H. inversion H; subst. constructor.
+  - eapply init_value; eassumption.
+  - rewrite Forall_forall in *. intros c Hc. apply IH; auto.
+Qed.
+
+(* ------------------------------------------------------------------------- *)
+(* L2 = L0 from the consistency of the input arrays alone                      *)
+(* ------------------------------------------------------------------------- *)
+Lemma chain_sibs_inv next : forall fuel v l, chain fuel next v = Ok l -> sibs next v l.
+Proof.
+  induction fuel as [|f IH]; intros v l H; [discriminate|]. cbn [chain] in H. unfold tsk_null in H.
+  destruct (Z.eqb_spec v (-1)%Z) as [E|NE].
+  - inversion H; subst. constructor.
+  - destruct (get next v) as [n| | |] eqn:En; cbn [bind] in H; try discriminate.
+    destruct (chain f next n) as [r| | |] eqn:Er; cbn [bind] in H; try discriminate.
+    inversion H; subst. econstructor; [exact NE | exact En | apply IH; exact Er].
+Qed.
+
+Lemma zlist_eqb_eq a b : zlist_eqb a b = true -> a = b.
+Proof. apply list_eqb_eq. intros x y. apply Z.eqb_eq. Qed.
+
+Lemma links_okb_RepP ta t : links_okb ta t = true -> RepP ta t.
+Proof.
+  induction t as [u o ch IH] using tree_ind'. cbn [links_okb]. intros H.
+  apply andb_true_iff in H as [H H3]. apply andb_true_iff in H as [H1 H2].
+  destruct (get (ta_right_child ta) u) as [rc| | |] eqn:Erc; try discriminate.
+  destruct (get (ta_parent ta) u) as [p| | |] eqn:Ep; try discriminate.
+  destruct (chain (S (length (ta_left_sib ta))) (ta_left_sib ta) rc) as [l| | |] eqn:El; try discriminate.
+  apply zlist_eqb_eq in H1. subst l. apply chain_sibs_inv in El.
+  econstructor; [exact Erc | exact El | exact Ep | |].
+  - rewrite forallb_forall in H2. intros c Hc. specialize (H2 c Hc).
+    destruct (get (ta_parent ta) (tid c)) as [q| | |]; try discriminate. apply Z.eqb_eq in H2. subst. reflexivity.
+  - rewrite forallb_forall in H3. rewrite Forall_forall in *. intros c Hc. apply IH; auto.
+Qed.
+
+Lemma RepF_ids_nonneg ta t : RepF ta t -> forall x, In x (ids t) -> (0 <= x)%Z.
+Proof.
+  induction t as [u o ch IH] using tree_ind'. intros H x Hx. inversion H; subst.
+  rewrite ids_node in Hx. destruct Hx as [<-|Hx].
+  - assert (X : exists a, get (ta_flags ta) u = Ok a) by eauto. apply get_ok_iff in X. lia.
+  - unfold forest_ids in Hx. apply in_flat_map in Hx. destruct Hx as [c [Hc Hx]].
+    rewrite Forall_forall in *. eapply IH; eauto.
+Qed.
+
+Lemma c_map_mutations_eq_relabel fx ta g anc os0 na0 nm roots :
+  init_sets fx (ta_samples ta) g (repeat 0%N (S (length (ta_flags ta)))) 0 0 = Ok (os0, na0, nm) ->
+  nm <> 0%Z ->
+  match anc with Some a => (0 <= a < c20_hartigan_max_alleles)%Z | None => True end ->
+  rose_of_arrays ta g = Ok roots ->
+  arrays_okb ta roots = true ->
+  forallb (sets_nonzero (Z.to_nat (final_num_alleles na0 anc))) (map (relabel fx) roots) = true ->
+  c_map_mutations_gen fx ta g anc =
+  match mm_rose (Z.to_nat (final_num_alleles na0 anc)) (map (relabel fx) roots) (option_map Z.to_N anc) with
+  | Some (a, tr) => Ok (Z.of_N a, tr)
+  | None => Err ERR_NONTERMINATION
+  end.
+Proof.
+  intros Hinit Hnm Hanc Hrose HA NZ.
+  unfold arrays_okb in HA.
+  repeat match type of HA with (_ && _ = true) => let H := fresh "A" in apply andb_true_iff in HA as [HA H] end.
+  rename A into Asize, A0 into Aids, A1 into Aflags, A2 into Asamp, A3 into Alinks, A4 into Apar.
+  destruct (get (ta_right_child ta) (zlen (ta_flags ta))) as [rc| | |] eqn:Erc; try discriminate.
+  destruct (chain (S (length (ta_left_sib ta))) (ta_left_sib ta) rc) as [l| | |] eqn:El; try discriminate.
+  apply zlist_eqb_eq in HA. subst l. apply chain_sibs_inv in El.
+  apply Nat.ltb_lt in Asize. apply nodupb_NoDup in Aids. apply nodupb_NoDup in Asamp.
+  assert (SO : samples_ok ta).
+  { split; [exact Asamp|]. rewrite forallb_forall in Aflags. intros s Hs. specialize (Aflags s Hs).
+    destruct (get (ta_flags ta) s) as [f| | |]; try discriminate. eauto. }
+  assert (HP : Forall (RepP ta) roots).
+  { rewrite forallb_forall in Alinks. apply Forall_forall. intros c Hc. apply links_okb_RepP. auto. }
+  assert (Hpar : forall r, In r roots -> get (ta_parent ta) (tid r) = Ok (-1)%Z).
+  { rewrite forallb_forall in Apar. intros r Hr. specialize (Apar r Hr).
+    destruct (get (ta_parent ta) (tid r)) as [q| | |]; try discriminate. apply Z.eqb_eq in Apar. subst. reflexivity. }
+  destruct (rose_of_arrays_rep ta g roots Hrose) as [lc [Hlc [Hsibs [Hwide HR]]]].
+  assert (HO : Forall (RepO ta g) roots).
+  { unfold rose_of_arrays in Hrose. rewrite Hlc in Hrose. cbn [bind] in Hrose. eapply rose_chain_repO; eassumption. }
+  apply (c_map_mutations_core fx ta g anc os0 na0 nm roots); try assumption.
+  - rewrite Forall_forall in *. intros c Hc. eapply RepO_InitOk; eauto.
+  - eapply init_value_root; eassumption.
+  - apply (postorder_from_virtual_root_spec ta roots rc); try assumption.
+    intros x Hx. unfold forest_ids in Hx. apply in_flat_map in Hx. destruct Hx as [c [Hc Hx]].
+    rewrite Forall_forall in HR. eapply RepF_ids_nonneg; eauto.
+Qed.
+
+Lemma map_relabel_false roots : map (relabel false) roots = roots.
+Proof. induction roots as [|c r IH]; simpl; [reflexivity|]. rewrite relabel_false, IH. reflexivity. Qed.
+Lemma map_relabel_true roots : map (relabel true) roots = map demote roots.
+Proof. induction roots as [|c r IH]; simpl; [reflexivity|]. rewrite relabel_true, IH. reflexivity. Qed.
+
+(* both variants of the code: the pinned one computes mm_rose, the repaired one mm_rose_fixed *)
+Lemma c_map_mutations_eq_rose_lemma fx ta g anc os0 na0 nm roots :
+  init_sets fx (ta_samples ta) g (repeat 0%N (S (length (ta_flags ta)))) 0 0 = Ok (os0, na0, nm) ->
+  nm <> 0%Z ->
+  match anc with Some a => (0 <= a < c20_hartigan_max_alleles)%Z | None => True end ->
+  rose_of_arrays ta g = Ok roots ->
+  arrays_okb ta roots = true ->
+  forallb (sets_nonzero (Z.to_nat (final_num_alleles na0 anc))) (if fx then map demote roots else roots) = true ->
+  c_map_mutations_gen fx ta g anc =
+  match (if fx then mm_rose_fixed else mm_rose) (Z.to_nat (final_num_alleles na0 anc)) roots (option_map Z.to_N anc) with
+  | Some (a, tr) => Ok (Z.of_N a, tr)
+  | None => Err ERR_NONTERMINATION
+  end.
+Proof.
+  intros Hinit Hnm Hanc Hrose HA NZ.
+  rewrite (c_map_mutations_eq_relabel fx ta g anc os0 na0 nm roots Hinit Hnm Hanc Hrose HA).
+  - destruct fx; [rewrite map_relabel_true | rewrite map_relabel_false]; reflexivity.
+  - destruct fx; [rewrite map_relabel_true | rewrite map_relabel_false]; exact NZ.
 Qed.
